@@ -3,6 +3,7 @@ use std::path::Path;
 
 use crate::engine::Ctx;
 
+pub mod c01;
 pub mod c02;
 pub mod c17;
 
@@ -14,7 +15,7 @@ pub struct Prop {
 }
 
 pub fn all() -> Vec<Prop> {
-    vec![c02::PROP, c17::PROP]
+    vec![c01::PROP, c02::PROP, c17::PROP]
 }
 
 pub fn lookup(id: &str) -> Option<Prop> {
